@@ -4,6 +4,10 @@ CONSTANTS MaxN = 3
   Forms <- FormsThorough
   StopKinds = {"close", "abandon"}
   Scenarios <- ScenAll
+  Reruns = {FALSE, TRUE}
+  RerunScenarios <- ScenRerunThorough
+  RerunLens <- LensRerunThorough
+  RerunForms <- FormsAll
   KeepHistory = TRUE
   Design = "rename"
 VIEW view
